@@ -32,8 +32,8 @@ ASSUME = [
 # handing out new ones when the time is up), so the wall time does not depend on the machine's load;
 # the number of cases actually executed is measured and reported.
 TIERS = {
-    "quick": dict(cfg="MCSelection_quick.cfg", mc_timeout=110, tv_chunks=8, wall=170, reserve=35),
-    "thorough": dict(cfg="MCSelection_thorough.cfg", mc_timeout=780, tv_chunks=12, wall=1440, reserve=150),
+    "quick": dict(cfg="MCSelection_quick.cfg", mc_timeout=110, tv_chunks=8, wall=170, reserve=35, cex_per_key=4),
+    "thorough": dict(cfg="MCSelection_thorough.cfg", mc_timeout=780, tv_chunks=12, wall=1440, reserve=150, cex_per_key=12),
 }
 
 
@@ -75,11 +75,27 @@ def validate(nd, tag, chunks):
     viols, nonconfs, variants, skips = [], [], [], []
     m_ok = True
 
+    def tv(cfg, p, t):
+        r = run_tlc("TraceSelection.tla", cfg, t, workers=1, env={"TRACE": p}, timeout=1500, depth_first=True,
+                    keep_tags=("VIOL", "NONCONF", "VARIANT", "SKIP"), max_keep=1000000)
+        return r, tlc_consumed(r["out"])
+
     def one(pk):
         p, off = pk
-        v, nc, ok, out = validate_trace("TraceSelection.tla", "TraceSelection.cfg", p, "%s_%d" % (tag, off),
-                                        timeout=1500, cfg_fallback="TraceSelectionP.cfg")
-        return v, nc, ok, tlc_printed(out, "VARIANT"), tlc_printed(out, "SKIP")
+        r, consumed = tv("TraceSelection.cfg", p, "tv_%s_%d" % (tag, off))
+        ok = True
+        extra_nc = []
+        if consumed is None:
+            # Layer M evaluation aborted TLC: a nonconformance of its own; re-judge with Layer P alone
+            ok = False
+            extra_nc = [{"line": -1, "i": -1, "what": "LayerM-evaluation-aborted", "tail": r["out"][-600:]}]
+            r, consumed = tv("TraceSelectionP.cfg", p, "tvp_%s_%d" % (tag, off))
+            if consumed is None:
+                log(r["out"][-3000:])
+                raise ToolError("trace validation did not consume the trace")
+        pr = r["printed"]
+        return (parse_printed(pr["VIOL"], "VIOL"), parse_printed(pr["NONCONF"], "NONCONF") + extra_nc, ok,
+                parse_printed(pr["VARIANT"], "VARIANT"), parse_printed(pr["SKIP"], "SKIP"))
 
     with concurrent.futures.ThreadPoolExecutor(max_workers=len(parts)) as ex:
         for v, nc, ok, var, sk in ex.map(one, parts):
@@ -96,26 +112,32 @@ def run(tier, replay_path, t0):
     T = TIERS[tier]
     build_s = build_harness(["replay_select"])
     mc = None
-    cex, fixcex, sampled = [], [], []
+    cex, fixcex, sampled, first = [], [], [], []
     if replay_path:
         info = json.load(open(replay_path))["info"]
         stim = info["cases"]
     else:
         cfg = make_cfg(T["cfg"], tier)
-        mc = run_tlc("MCSelection.tla", cfg, "mc_C01_" + tier, timeout=T["mc_timeout"])
+        mc = run_tlc("MCSelection.tla", cfg, "mc_C01_" + tier, timeout=T["mc_timeout"],
+                     keep_tags=("CASE", "CEX", "FIXCEX"), max_keep=1000000)
         if not mc["completed"]:
             log(mc["out"][-3000:])
             raise ToolError("TLC did not complete the enumeration of MCSelection (%s)" % T["cfg"])
-        cex = tlc_printed(mc["out"], "CEX")
-        fixcex = tlc_printed(mc["out"], "FIXCEX")
-        sampled = tlc_printed(mc["out"], "CASE")
+        cex = parse_printed(mc["printed"]["CEX"], "CEX")
+        fixcex = parse_printed(mc["printed"]["FIXCEX"], "FIXCEX")
+        sampled = parse_printed(mc["printed"]["CASE"], "CASE")
         log("  MC %s: %d cases enumerated (%d states), %d model counter-examples printed (%d keys), %d against the patched design, %d cases sampled as stimulus (%.0fs)" % (
             T["cfg"], mc["states"], mc["states"], len(cex), len(set((x["m"], x["cl"]) for x in cex)), len(fixcex), len(sampled), mc["wall_s"]))
-        # stimulus: every printed model counter-example first, then the sample in seeded random order
+        # stimulus: model counter-examples first (at most cex_per_key of every key, smallest wallets
+        # first), then the sample in seeded random order
         order = list(sampled)
         rnd.shuffle(order)
+        per_key = {}
+        for x in sorted(cex + fixcex, key=lambda x: (len(x["c"]["outs"]), case_key(x["c"]))):
+            per_key.setdefault((x["m"], x["cl"]), []).append(x["c"])
+        first = [c for k in sorted(per_key) for c in per_key[k][:T["cex_per_key"]]]
         seen, stim = set(), []
-        for c in [x["c"] for x in cex] + [x["c"] for x in fixcex] + order:
+        for c in first + order:
             k = case_key(c)
             if k not in seen:
                 seen.add(k)
@@ -129,7 +151,7 @@ def run(tier, replay_path, t0):
     events = read_ndjson(nd)
     if not events or any(case_key(e["c"]) != case_key(stim[e["i"]]) for e in events):
         raise ToolError("the harness did not echo the cases it was given")
-    ncex = len(set(case_key(x["c"]) for x in cex + fixcex))
+    ncex = len(first) if not replay_path else 0
     if len(events) < min(len(stim), ncex):
         raise ToolError("the time budget did not even cover the model counter-examples")
     log("  %d cases executed" % len(events))
